@@ -352,6 +352,10 @@ FileList::initialize(uint64_t torrentSize, uint32_t chunkSize) {
   if (chunkSize == 0)
     throw internal_error("FileList::initialize() chunk_size() == 0.", data()->hash());
 
+  // The piece count must fit the 32 bit indices used everywhere.
+  if ((torrentSize + chunkSize - 1) / chunkSize > std::numeric_limits<uint32_t>::max())
+    throw input_error("Torrent has too many pieces.");
+
   m_chunk_size = chunkSize;
   m_torrent_size = torrentSize;
   m_root_dir = ".";
